@@ -161,7 +161,28 @@ func vsSend(s vsScenario, c Connection, r *rand.Rand, ops map[string]int) error 
 }
 
 // vsConsume performs one random reader op; returns bytes consumed or an error string.
-func vsConsume(s vsScenario, rd Reader, r *rand.Rand, pos *int, maxN int, ops map[string]int) (eof bool, bad string) {
+type vsHeld struct {
+	p  []byte
+	at int
+}
+
+// vsConsume performs one random reader op. Zero-copy results (Next, Peek) are kept in *held and re-checked
+// after every later op until the next Release (C02 seen through a connection: a held result must keep its content).
+func vsConsume(s vsScenario, c Connection, r *rand.Rand, pos *int, maxN int, ops map[string]int, held *[]vsHeld) (eof bool, bad string) {
+	rd := c.Reader()
+	defer func() {
+		if bad != "" {
+			return
+		}
+		for _, h := range *held {
+			for i := range h.p {
+				if h.p[i] != vsByte(s.seed, h.at+i) {
+					bad = fmt.Sprintf("a zero-copy result obtained at stream position %d (%d bytes) changed before Release: byte %d is %d, want %d", h.at, len(h.p), i, h.p[i], vsByte(s.seed, h.at+i))
+					return
+				}
+			}
+		}
+	}()
 	check := func(p []byte, at int, what string) string {
 		for i := range p {
 			if p[i] != vsByte(s.seed, at+i) {
@@ -179,12 +200,22 @@ func vsConsume(s vsScenario, rd Reader, r *rand.Rand, pos *int, maxN int, ops ma
 	}
 	isEOF := func(err error) bool { return errors.Is(err, ErrEOF) }
 	var err error
-	switch r.Intn(9) {
+	switch r.Intn(10) {
+	case 9:
+		// net.Conn style Read: copies out, must not invalidate what Next/Peek handed out before
+		ops["Read"]++
+		p := make([]byte, n)
+		var k int
+		if k, err = c.Read(p); err == nil {
+			bad = check(p[:k], *pos, "Read")
+			*pos += k
+		}
 	case 0, 1:
 		ops["Next"]++
 		var p []byte
 		if p, err = rd.Next(n); err == nil {
 			bad = check(p, *pos, "Next")
+			*held = append(*held, vsHeld{p, *pos})
 			*pos += len(p)
 		}
 	case 2:
@@ -192,6 +223,7 @@ func vsConsume(s vsScenario, rd Reader, r *rand.Rand, pos *int, maxN int, ops ma
 		var p []byte
 		if p, err = rd.Peek(n); err == nil {
 			bad = check(p, *pos, "Peek")
+			*held = append(*held, vsHeld{p, *pos})
 		}
 	case 3:
 		ops["Skip"]++
@@ -222,6 +254,7 @@ func vsConsume(s vsScenario, rd Reader, r *rand.Rand, pos *int, maxN int, ops ma
 	case 7:
 		ops["Slice"]++
 		var sl Reader
+		*held = (*held)[:0] // "Slice will automatically execute a Release"
 		if sl, err = rd.Slice(n); err == nil {
 			p, e2 := sl.Next(n)
 			if e2 != nil {
@@ -234,6 +267,7 @@ func vsConsume(s vsScenario, rd Reader, r *rand.Rand, pos *int, maxN int, ops ma
 		}
 	default:
 		ops["Release"]++
+		*held = (*held)[:0]
 		err = rd.Release()
 	}
 	if err != nil {
@@ -243,6 +277,7 @@ func vsConsume(s vsScenario, rd Reader, r *rand.Rand, pos *int, maxN int, ops ma
 		return false, "reader op failed: " + err.Error()
 	}
 	if r.Intn(4) == 0 {
+		*held = (*held)[:0]
 		rd.Release()
 	}
 	return false, bad
@@ -281,6 +316,7 @@ func vsRun(s vsScenario) (res vsResult) {
 	}
 	eofCh := make(chan struct{}, 2)
 	pos := 0
+	var held []vsHeld
 	onReq := func(ctx context.Context, c Connection) error {
 		rd := c.Reader()
 		// consume at least something, at most everything that is buffered (sometimes block for more)
@@ -292,7 +328,7 @@ func vsRun(s vsScenario) (res vsResult) {
 					maxN = s.total - pos
 				}
 			}
-			_, b := vsConsume(s, rd, rr, &pos, maxN, rops)
+			_, b := vsConsume(s, c, rr, &pos, maxN, rops, &held)
 			atomic.StoreInt64(&got, int64(pos))
 			if b != "" {
 				setBad(b)
@@ -303,6 +339,7 @@ func vsRun(s vsScenario) (res vsResult) {
 				time.Sleep(time.Duration(rr.Intn(300)) * time.Microsecond)
 			}
 		}
+		held = held[:0]
 		rd.Release()
 		return nil
 	}
@@ -416,13 +453,12 @@ func vsRun(s vsScenario) (res vsResult) {
 		readDone := make(chan struct{})
 		go func() {
 			defer close(readDone)
-			rd := receiver.Reader()
 			for {
 				maxN := s.total - pos
 				if maxN <= 0 {
 					maxN = 1 // provoke EOF
 				}
-				eof, b := vsConsume(s, rd, rr, &pos, maxN, rops)
+				eof, b := vsConsume(s, receiver, rr, &pos, maxN, rops, &held)
 				atomic.StoreInt64(&got, int64(pos))
 				if b != "" {
 					setBad(b)
